@@ -33,6 +33,13 @@ CHECKS.update({
    note="Restricted to the edits the property names (field addition, AbiRemoved with/without constructor, appended variants, retired live fields); versions covered by savefile_versions_as or Removed<T> are counted as excluded."),
 })
 
+CHECKS.update({
+ "C05": dict(cat="exploration", design="DESIGN.md §3 C05",
+   technique="property-based testing over generated type pairs (single-edit mutants, insignificant twins, unrelated pairs) with a type-level wire normal form as oracle; enumerated header corruptions",
+   text="Ordered pairs (saved type, loaded type) are generated together with values: where the wire normal forms differ load must fail with IncompatibleSchema (never Ok, panic or another error); where the documentation calls the difference insignificant it must succeed with the same value. Header corruptions must be rejected without reading past the 16-byte header.",
+   note="Acceptance is asserted only for documented-insignificant differences; pairs that share a normal form carry no expectation. Normal forms of private leaf encodings come from the observed format."),
+})
+
 NOT_YET = {
 }
 
